@@ -870,6 +870,16 @@ bool FSolver::LoadMeshElementsFromSolution(FILE* fp)
                  &elm.e[2],
                  &elm.Jprev );
 
+        if (elm.lbl < 0)
+        {
+            WarnMessage("An element of the previous solution has no block label.\n");
+            return false;
+        }
+        if (!(elm.lbl < (int)labellist.size()))
+        {
+            WarnMessage("An element of the previous solution refers to a block label that the problem does not have.\n");
+            return false;
+        }
         // look up block type out of the list of block labels
         elm.blk = labellist[elm.lbl].BlockType;
 
@@ -1059,7 +1069,11 @@ bool FSolver::loadPreviousSolution(bool loadAprev)
     LoadMeshNodesFromSolution(loadAprev, fp);
 
     // read elements
-    LoadMeshElementsFromSolution(fp);
+    if (!LoadMeshElementsFromSolution(fp))
+    {
+        fclose(fp);
+        return false;
+    }
 
     // scroll through block label info
     fgets(s,1024,fp);
